@@ -57,8 +57,12 @@ impl ISocketConnection for ScaConnectionIface {
         return Err(ZmqError::ResourceLimitReached);
       }
       Err(TrySendError::Full(returned_fb)) => {
-        let timeout_duration = self.sndtimeo.unwrap_or(Duration::from_secs(30));
-        return match timeout(timeout_duration, self.pipe_sender.send(returned_fb)).await {
+        // SNDTIMEO -1 (None) means "wait until there is room", not "give up eventually".
+        let send_result = match self.sndtimeo {
+          None => Ok(self.pipe_sender.send(returned_fb).await),
+          Some(timeout_duration) => timeout(timeout_duration, self.pipe_sender.send(returned_fb)).await,
+        };
+        return match send_result {
           Ok(Ok(())) => Ok(()),
           Ok(Err(_)) => Err(ZmqError::ConnectionClosed),
           Err(_) => Err(ZmqError::ResourceLimitReached),
@@ -83,8 +87,12 @@ impl ISocketConnection for ScaConnectionIface {
         return Err(ZmqError::ResourceLimitReached);
       }
       Err(TrySendError::Full(returned_msgs)) => {
-        let timeout_duration = self.sndtimeo.unwrap_or(Duration::from_secs(30));
-        return match timeout(timeout_duration, self.pipe_sender.send(returned_msgs)).await {
+        // SNDTIMEO -1 (None) means "wait until there is room", not "give up eventually".
+        let send_result = match self.sndtimeo {
+          None => Ok(self.pipe_sender.send(returned_msgs).await),
+          Some(timeout_duration) => timeout(timeout_duration, self.pipe_sender.send(returned_msgs)).await,
+        };
+        return match send_result {
           Ok(Ok(())) => Ok(()),
           Ok(Err(_)) => Err(ZmqError::ConnectionClosed),
           Err(_) => Err(ZmqError::ResourceLimitReached),
